@@ -157,7 +157,7 @@ static int amf_load(struct module_data *m, HIO_HANDLE *f, const int start)
 
 		mod->xxp[i]->rows = ver >= 0x0e ? hio_read16l(f) : 64;
 
-		if (mod->xxp[i]->rows > 256)
+		if (mod->xxp[i]->rows == 0 || mod->xxp[i]->rows > 256)
 			return -1;
 
 		for (j = 0; j < mod->chn; j++) {
